@@ -231,7 +231,9 @@ fn arg_value(mix: &mut Mix, bits: u64, boolean: bool) -> u64 {
 /// Resolve where a forwarding method finally lands: (stub kind, receiver offset, func)
 enum Landing {
     Address { addr: u64, off: u64 },
-    Slot { slot: u64, sub_off: u64, table_len: u64 },
+    /// `sub_off`: offset of the sub-object the callee sees as receiver; `vptr_off`: where (in the whole object) the
+    /// table pointer it dispatches through is stored
+    Slot { slot: u64, sub_off: u64, vptr_off: u64, table_len: u64 },
 }
 
 impl Driver {
@@ -263,9 +265,11 @@ impl Driver {
             }),
             Origin::Vfunc { slot } => {
                 let (v, _, _) = model.effective_vft(m, i)?;
+                let within = Self::vptr_offset(model, m, i, 0).unwrap_or(0);
                 Some(Landing::Slot {
                     slot: *slot,
                     sub_off: off,
+                    vptr_off: off + within,
                     table_len: vft_slots(&v).len,
                 })
             }
@@ -326,10 +330,10 @@ impl Driver {
                 }
                 (*addr, *off)
             }
-            Landing::Slot { slot, sub_off, table_len } => {
+            Landing::Slot { slot, sub_off, vptr_off, table_len } => {
                 let base = 0x7ab1e_0000u64 + (test as u64) * 0x1000;
                 body.push_str(&format!("        let table = crate::rt::make_table({table_len}, {base:#x}u64);\n"));
-                body.push_str(&format!("        ((obj as *mut u8).add({sub_off}) as *mut usize).write_unaligned(table);\n"));
+                body.push_str(&format!("        ((obj as *mut u8).add({vptr_off}) as *mut usize).write_unaligned(table);\n"));
                 (base + slot, *sub_off)
             }
         };
@@ -390,7 +394,7 @@ impl Driver {
             values: vec![],
         });
         // for vfunc-landing calls: a second call with a different table catches wrappers bound to a fixed entry
-        if let Landing::Slot { slot, sub_off, table_len } = &landing {
+        if let Landing::Slot { slot, sub_off, vptr_off, table_len } = &landing {
             let test2 = self.expects.len();
             let fname2 = format!("pv_test_{test2}");
             let base2 = 0x9cafe_0000u64 + (test2 as u64) * 0x1000;
@@ -398,7 +402,7 @@ impl Driver {
             b2.push_str(&format!("    pub unsafe fn {fname2}() {{\n"));
             b2.push_str(&format!("        let obj = crate::rt::zeroed({size}, {align}) as *mut {};\n", td.name));
             b2.push_str(&format!("        let table = crate::rt::make_table({table_len}, {base2:#x}u64);\n"));
-            b2.push_str(&format!("        ((obj as *mut u8).add({sub_off}) as *mut usize).write_unaligned(table);\n"));
+            b2.push_str(&format!("        ((obj as *mut u8).add({vptr_off}) as *mut usize).write_unaligned(table);\n"));
             b2.push_str(&format!("        crate::rt::reset({retv:#x}u64);\n"));
             match &ret_info {
                 None => b2.push_str(&format!("        let _r: () = {call};\n        let ret = 0u64;\n")),
@@ -444,6 +448,27 @@ impl Driver {
     }
 
     /// All transitive bases of a type: (field path offset, bound item, type source)
+    /// Offset of the vftable pointer a type uses: 0 when it owns the pointer, else the offset of its first
+    /// base plus that base's own answer.
+    fn vptr_offset(model: &mut Model, mi: usize, ii: usize, depth: usize) -> Option<u64> {
+        if depth > 16 {
+            return None;
+        }
+        let lay = model.layout(mi, ii).ok()?;
+        if lay.owns_vptr {
+            return Some(0);
+        }
+        let Item::Type(td) = &model.prog.mods[mi].items[ii] else { return None };
+        let (f, fl) = td.fields.iter().zip(lay.fields.iter()).find(|(f, _)| f.base)?;
+        let Ty::Named(n) = &f.ty else { return None };
+        let n = n.clone();
+        let off = fl.offset;
+        match model.bind(mi, &n) {
+            Some(Bind::Item(bm, bi)) => Some(off + Self::vptr_offset(model, bm, bi, depth + 1)?),
+            _ => None,
+        }
+    }
+
     fn bases(model: &mut Model, m: usize, i: usize, off: u64, out: &mut Vec<(u64, (usize, usize))>) {
         let Item::Type(td) = model.prog.mods[m].items[i].clone() else { return };
         let Ok(l) = model.layout(m, i) else { return };
@@ -488,6 +513,9 @@ impl Driver {
                         }
                         // vftable accessor returns the word at offset 0
                         if lay.has_vft {
+                            // where the shared pointer lives: at 0 in the type that owns it, else inside the
+                            // chain of first bases, each at its own offset
+                            let vptr_off = Self::vptr_offset(&mut model, mi, ii, 0).unwrap_or(0);
                             let marker = 0x7000_0000_0000u64 + mix.below(1 << 40) * 8;
                             d.value_test(
                                 &file,
@@ -495,7 +523,7 @@ impl Driver {
                                 format!("{}::vftable()", td.name),
                                 vec![
                                     format!("let obj = crate::rt::zeroed({}, {}) as *mut {};", lay.size, lay.align, td.name),
-                                    format!("*(obj as *mut usize) = {marker:#x}usize;"),
+                                    format!("((obj as *mut u8).add({vptr_off}) as *mut usize).write_unaligned({marker:#x}usize);"),
                                     "crate::rt::value(test, \"vftable\", \"returned\", (&*obj).vftable() as usize as i128);".to_string(),
                                 ],
                                 vec![("returned".into(), marker as i128)],
